@@ -8,6 +8,7 @@ kept / emptied / rejected according to the mode; expansion terminates.
 import CaddyModel.C18.Lemmas
 import CaddyModel.C18.CostLemmas
 import CaddyModel.C18.Http
+import CaddyModel.Gen.Consts
 
 namespace CaddyModel.C18
 
@@ -134,6 +135,10 @@ theorem vars_matcher_compares_verbatim (key mv : Bytes) (r : HttpReq) (b : Bool)
 theorem vars_regexp_old_code_rescans :
     ∃ (key : Bytes) (r : HttpReq), varsRegexpCapturedOld key r ≠ some (varValue key r) :=
   ⟨str "{http.request.header.X-In}", ⟨str "{env.VERIF_C18_SECRET}", [], [47], str "S3CR3T", []⟩, by decide⟩
+
+/-- **regenerated tie.** The model's "give up after more than 100 unclosed placeholders" is the
+    constant the extractor reads out of replacer.go on every run (`Gen/Consts.lean`). -/
+theorem unclosed_limit_matches_source : Gen.replacerUnclosedLimit = some 100 := by decide
 
 /-! ### non-vacuity: the hypotheses are met by concrete non-trivial inputs (kernel-evaluated) -/
 
